@@ -49,8 +49,9 @@ META = dict(
            "fprintf(stderr) and PyErr_SetString: no effect"],
     bounds=dict(quick=dict(pages=2, page_sizes="(2,2) (1,3) (0,2)", scripts="17 (layout, byte order, script) combinations, 1-3 "
                            "operations each", query_timeout_s=20),
-                thorough=dict(pages="2 and 3", page_sizes="(4,4) (1,3) (0,2) (2,0) (3,1) (2,2) (4,1) (2,2,2) (1,0,3)", scripts=22,
-                              byte_orders="both for typed accesses", query_timeout_s=60)),
+                thorough=dict(pages="2 and 3", page_sizes="(2,2) (4,4) (1,3) (0,2) (2,0) (3,1) (4,1); 3 pages: (2,2,2) (1,0,3) with 6 "
+                              "scripts", scripts=17, byte_orders="both for typed accesses on (2,2) (4,4) (1,3)", query_timeout_s=60,
+                              task_budget_s=600)),
     outside=["vm_mngr_py.c (CPython glue)", "remove_memory_page, code-block bookkeeping (add_code_bloc / check_invalid_code_blocs)",
              "more than 3 pages or pages larger than 4 bytes, scripts longer than 3 operations", "allocation failure paths",
              "pages, accesses and breakpoints that wrap around 2^64"],
@@ -59,7 +60,7 @@ META = dict(
                  "memory contents and read values are no longer compared on that path: the property only says that it fails",
                  "a failing host access also raises EXCEPT_ACCESS_VIOL (vm_mngr.c looks pages up with raise_exception=1)"],
     rule="history = page layout x byte order x operation script with symbolic addresses/values; obligations per path; non-trivial = "
-         "path on which an access straddles two pages",
+         "path with a multi-byte access while at least two pages are mapped",
     explanation="Bounded model checking of the real C source through its LLVM IR: page addresses, permissions, contents, operation "
                 "addresses and values are solver variables; the oracle byte map is an SMT term over the same variables.",
     trusted_base=["z3 5.1", "clang-14 front end and -O1 pipeline", "vf/llsym.py"],
@@ -75,13 +76,16 @@ QUICK = [
     ('be', (2, 2), ['W16', 'R16']), ('be', (2, 2), ['W32', 'R8']),
 ]
 SCRIPTS_T = [
-    ['W32', 'R32'], ['W16', 'R64'], ['W64', 'R8'], ['W8', 'R16'], ['W16', 'W32', 'R16'], ['W64', 'R64'], ['W32', 'W32', 'R64'],
-    ['HW3', 'R32'], ['W32', 'HR3'], ['HW2', 'HR4'], ['HW4', 'HR4'],
-    ['BP', 'W16', 'CHK'], ['BP', 'R32', 'CHK'], ['BP', 'W64', 'R8', 'CHK'], ['BP', 'R16', 'RESET', 'CHK'],
-    ['W64', 'W8', 'RANGES'], ['R64', 'R8', 'RANGES'], ['W32', 'RESET', 'W8', 'RANGES'], ['R16', 'W16', 'RANGES'], ['W8', 'W8', 'RANGES'],
+    ['W32', 'R32'], ['W16', 'R64'], ['W64', 'R8'], ['W8', 'R16'], ['W16', 'W32', 'R16'],
+    ['HW3', 'R32'], ['W32', 'HR3'], ['HW2', 'HR4'],
+    ['BP', 'W16', 'CHK'], ['BP', 'R32', 'CHK'], ['BP', 'R16', 'RESET', 'CHK'],
+    ['W64', 'W8', 'RANGES'], ['R64', 'R8', 'RANGES'], ['W32', 'RESET', 'W8', 'RANGES'], ['R16', 'W16', 'RANGES'],
     ['ISMAPPED3'], ['ISMAPPED1'],
 ]
-SIZES_T = [(4, 4), (1, 3), (0, 2), (2, 0), (3, 1), (2, 2), (4, 1), (2, 2, 2), (1, 0, 3)]
+SIZES_T = [(4, 4), (1, 3), (0, 2), (2, 0), (3, 1), (4, 1)]
+THREE_PAGES = [((2, 2, 2), ['W32', 'R16']), ((2, 2, 2), ['W16', 'R32']), ((1, 0, 3), ['W32', 'R8']), ((2, 2, 2), ['HW4', 'HR4']),
+               ((1, 0, 3), ['ISMAPPED3']), ((2, 2, 2), ['R32', 'R8', 'RANGES'])]
+TASK_BUDGET_S = dict(quick=240, thorough=600)
 
 
 def tasks(tier, seed):
@@ -91,11 +95,14 @@ def tasks(tier, seed):
     else:
         combos = list(QUICK)
         for sz in SIZES_T:
-            for sc in SCRIPTS_T:
+            for si, sc in enumerate(SCRIPTS_T):
                 typed = any(o[0] in 'WR' and o[1:] in ('16', '32', '64') for o in sc)
-                for sex in (('le', 'be') if typed else ('le',)):
+                # big endian: typed scripts, on the first two layouts only (byte order does not interact with the layout)
+                for sex in (('le', 'be') if typed and sz in SIZES_T[:2] else ('le',)):
                     if (sex, sz, sc) not in combos:
                         combos.append((sex, sz, sc))
+        for sz, sc in THREE_PAGES:
+            combos.append(('le', sz, sc))
     for sex, sz, sc in combos:
         ts.append(dict(id='%s:%s:%s' % (sex, 'x'.join(map(str, sz)), '-'.join(sc)), sex=sex, sizes=list(sz), script=sc,
                        tier=tier, cost=sum(int(o[1:]) // 8 if o[0] in 'WR' and o[1:].isdigit() else 1 for o in sc) + 2 * len(sz)))
@@ -434,7 +441,7 @@ def run_task(task):
     res = common.new_result(task)
     b = META['bounds'][task['tier']]
     eng = Engine(timeout_ms=b['query_timeout_s'] * 1000, max_paths=20000)
-    eng.deadline = time.time() + (240 if task['tier'] == 'quick' else 1800)
+    eng.deadline = time.time() + TASK_BUDGET_S[task['tier']]
     eng.on_path_end = common.make_known_attributor(common.load_known(PROP), task['id'])
     nontriv = [0]
 
